@@ -124,7 +124,7 @@ Fixpoint drop_stale (c : Z) (l : list Z) : list Z :=
   end.
 
 Definition resume_cond (s : st) : bool :=
-  resume_size (size s) (low s) &&
+  resume_bytes (size s) (low s) (match buf s with [] => true | _ => false end) &&
   match splits s with None => true | Some l => resume_chunks (len l) (lowc s) end.
 
 (* f :: r is the (non-empty) buffer deque.  `consume` is the body of _read_nowait_chunk up to the
